@@ -95,8 +95,13 @@ def gen_srr(rng, max_vox=24000, force_valid=True):
             l1 = l0
         spotsize, speed, scantime = int_mag_triple(rng, M)
         w = rng.choice([0, 0, 1, 2, 3, 5])
-        mode = rng.choice(["exact", "exact", "frac", "frac", "tie"])
-        if mode == "exact":
+        mode = rng.choice(["exact", "exact", "frac", "frac", "tie", "neartie"])
+        if mode == "neartie":  # the float product (w + 1/2) * scantime and its neighbours: the exact quotient is w + 1/2 +- ~1e-16,
+            seconds = (w + 0.5) * scantime  # so the float rounding of the division decides the warm-up in samples
+            step = rng.choice([0, 0, 1, -1])
+            if step:
+                seconds = float(np.nextafter(seconds, math.inf if step > 0 else -math.inf))
+        elif mode == "exact":
             seconds = w * scantime
         elif mode == "frac":
             seconds = (w + rng.choice([0.3, -0.3, 0.45, -0.45, 0.1])) * scantime
@@ -106,6 +111,8 @@ def gen_srr(rng, max_vox=24000, force_valid=True):
             spotsize, speed, scantime = 35.0 * M, 140.0, 0.25
             seconds = (w + 0.5) * 0.25
         weff = warmup_samples(seconds, scantime)
+        if mode == "neartie":  # input sizing only: here the float quotient decides, so that most of these stacks are long enough
+            weff = max(0, round(seconds / scantime))
         pairs = gen_pairs(rng)
         size = math.lcm(*[d for _, d in pairs])
         p = math.lcm(size, M) // M
@@ -132,8 +139,43 @@ def gen_srr(rng, max_vox=24000, force_valid=True):
 
 
 def srr_cfg_json(case):
+    """the INPUTS of an SRRConfig: the constructor arguments (exact values of the floats) and, under "ops", the changes made
+    to that object afterwards (see `cfg_op`); Lean's `SrrConfig.make` / setters compute the state from them"""
     return {"spotsize": rat(case["spotsize"]), "speed": rat(case["speed"]), "scantime": rat(case["scantime"]),
-            "warmup": rat(case["warmup"]), "pairs": case["pairs"]}
+            "warmup": rat(case["warmup"]), "pairs": case["pairs"], "ops": list(case.get("ops", []))}
+
+
+def cfg_op(op, **kw):
+    """one change of an SRRConfig object for the driver: warmup(seconds) | offsets(pairs) | equal(width) |
+    params(spotsize, speed, scantime) | new(spotsize, speed, scantime, warmup, pairs)"""
+    out = {"op": op}
+    for k, v in kw.items():
+        out[k] = rat(v) if isinstance(v, float) else v
+    return out
+
+
+def enc_rec(arr):
+    """a structured NumPy array as the driver's `RecArr`: dtype names in order, dim (None = 0-d, n = shape (n,)), one record
+    per element; a field is a float64 scalar ({"num": exact value}) or a (k, 2) integer sub-array ({"table": rows}).
+    None when the array is something else (2-d, other field types)."""
+    arr = np.asarray(arr)
+    if arr.dtype.names is None or arr.ndim > 1:
+        return None
+    names = [str(n) for n in arr.dtype.names]
+    elems = [arr[()]] if arr.ndim == 0 else [arr[i] for i in range(arr.shape[0])]
+    recs = []
+    for el in elems:
+        rec = []
+        for n in names:
+            v = np.asarray(el[n])
+            if v.ndim == 0 and v.dtype.kind == "f" and np.isfinite(v):
+                rec.append({"num": rat(float(v))})
+            elif v.ndim == 2 and v.shape[1] == 2 and v.dtype.kind in "iu":
+                rec.append({"table": [[int(a), int(b)] for a, b in v]})
+            else:
+                return None
+        recs.append(rec)
+    return {"names": names, "dim": None if arr.ndim == 0 else int(arr.shape[0]), "recs": recs}
 
 
 def float_mag(case):
@@ -238,15 +280,29 @@ class C10(Prop):
             "sizes / own-extent read / aligned reads, then edit one or several configuration attributes in place, replace the "
             "configuration object, assign data of another shape, add/remove an element, observe again - each observation against the "
             "model/spec for the configuration and shape held then) and on ONE SRRLaser object (offsets, equal offsets, warm-up, spot "
-            "size/speed/scan time edited in place, configuration replaced). Every case is non-trivial; distinct by canonical case hash")
+            "size/speed/scan time edited in place, configuration replaced; the driver is told the constructor arguments and the sequence of "
+            "setter calls, Lean's setters compute the state). Every extent observation also encodes the real to_array() result (dtype names, "
+            "shape, values) for the driver and runs Config.from_array / SpotConfig.from_array on the real arrays of all three configuration "
+            "classes (outcome or exception class against the model's from_array). Every case is non-trivial; distinct by canonical case hash")
     trusted = [
         "float64 multiplication/division are correctly rounded, hence for the generated magnitudes (indices <= 4000) the float "
         "quotient bound/pixel-size is within 5e-7 of the exact quotient (assumption of get_aligned_rect); the model evaluates the exact quotient",
         "Python round(x, 6) is round-half-even on the exact value of x and int() truncates (theorem get_aligned_rect shows no tie is reachable)",
         "extent values are compared with the exact rational at 1e-12 relative; SRR extent/pixel ratios with the integer shape at 1e-9 relative",
-        "SRR: 'integer magnification' means spotsize/(speed*scantime) evaluates to an integer in float64 (DESIGN 6a); the model is given that value",
+        "SRR: 'integer magnification' means spotsize/(speed*scantime) evaluates to an integer in float64 (DESIGN 6a); the driver computes "
+        "that float64 value from the inputs (PewModel/Srr.lean `fl`) and the SRR configuration from the constructor / setter inputs",
+        "structured arrays: NumPy >= 2 semantics of float(array) (TypeError unless 0-d), array[name] (ValueError for a missing field), "
+        "indexing a 0-d array (IndexError); arrays are encoded for the driver field by field (names in dtype order, shape, exact values)",
+        "structural ties: the ~350-line typed translator harness/structural_c10.py (expression trees of the SRR configuration arithmetic, "
+        "SRRLaser.extent, Laser.get's index conversion -> Lean definitions, proved equal to the model functions on every run)",
     ]
-    assumptions = ["SRR extent/shape clause is checked only when the reconstruction succeeds (C09 covers success)"]
+    assumptions = [
+        "SRR extent/shape clause: when the model's validity check accepts the configuration the demanded shape is Lean's "
+        "reconRows/reconCols (the C09 specification) and both the extent/pixel ratio and the shape pewlib reconstructs must equal it; "
+        "when the reconstruction raises nothing is compared (C09 covers success)",
+        "a change of the array LAYOUT of to_array (field names, order, the SpotConfig two-element array) that keeps the values through "
+        "the round trip is reported as an implementation-vs-model difference, not as a violation of the specification",
+    ]
 
     # ------------------------------------------------------------------ generation
     def gen_shape(self, rng, tier):
@@ -510,15 +566,42 @@ class C10(Prop):
 
     def observe_extent(self, laser, cfg, rows, cols, ctx):
         """pixel sizes, Laser.extent, data_extent and their array round trip of the laser AS IT IS NOW against the
-        driver's model/spec for `cfg`, `rows`, `cols` -> (impl, model, spec, spec_ok, model_ok)"""
+        driver's model/spec for `cfg`, `rows`, `cols` -> (impl, model, spec, spec_ok, model_ok).
+        The array form is compared as NumPy built it (dtype field names in order, shape, values), and `from_array` of
+        Config and SpotConfig is run on the real arrays of all three configuration classes."""
+        from pewlib.config import Config, SpotConfig
+        from pewlib.srr.config import SRRConfig
+
         conf = laser.config
-        rt = type(conf).from_array(conf.to_array())
+        own = conf.to_array()
+        rt = type(conf).from_array(own)
+        if cfg["kind"] == "raster":
+            others = [SpotConfig(spotsize=cfg["spotsize"], spotsize_y=cfg["speed"]).to_array(),
+                      SRRConfig(spotsize=cfg["spotsize"], speed=cfg["speed"], scantime=cfg["scantime"]).to_array()]
+        else:
+            others = [Config(spotsize=cfg["sx"], speed=cfg["sy"], scantime=1.0).to_array(),
+                      SRRConfig(spotsize=cfg["sx"], speed=cfg["sy"], scantime=0.25).to_array()]
+        encs = [enc_rec(a) for a in [own] + others]
+        if any(e is None for e in encs):
+            raise core.InternalError("a configuration array is not a 0-d / 1-d structured array of floats and (k, 2) integer tables")
+
+        def from_arr(cls, a):
+            try:
+                c = cls.from_array(a)
+            except Exception as e:
+                return {"raises": type(e).__name__}
+            if isinstance(c, SpotConfig):
+                return {"kind": "spot", "values": [rat(float(c.spotsize)), rat(float(c.spotsize_y))]}
+            return {"kind": "raster", "values": [rat(float(c.spotsize)), rat(float(c.speed)), rat(float(c.scantime))]}
+
         impl = {"pw": float(conf.get_pixel_width()), "ph": float(conf.get_pixel_height()),
                 "extent": [float(v) for v in laser.extent],
                 "data_extent": [float(v) for v in conf.data_extent((rows, cols))],
+                "array": encs[0],
                 "roundtrip": {"pw": float(rt.get_pixel_width()), "ph": float(rt.get_pixel_height()),
-                              "extent": [float(v) for v in rt.data_extent((rows, cols))]}}
-        rep = ctx.driver.call("c10.extent", cfg=cfg_json(cfg), rows=rows, cols=cols)
+                              "extent": [float(v) for v in rt.data_extent((rows, cols))]},
+                "from_arrays": [{"raster": from_arr(Config, a), "spot": from_arr(SpotConfig, a)} for a in [own] + others]}
+        rep = ctx.driver.call("c10.extent", cfg=cfg_json(cfg), rows=rows, cols=cols, arrays=encs)
         m, s = rep["model"], rep["spec"]
 
         def agrees(pw, ph, ext):
@@ -527,9 +610,18 @@ class C10(Prop):
                     and fclose(impl["roundtrip"]["pw"], unrat(pw)) and fclose(impl["roundtrip"]["ph"], unrat(ph))
                     and ext_close(impl["roundtrip"]["extent"], ext))
 
+        def same_outcome(o, j):
+            if j.get("unmodelled"):
+                return True
+            if "raises" in o or "raises" in j:
+                return o.get("raises") == j.get("raises")
+            return o["kind"] == j["kind"] and o["values"] == j["values"]
+
         spec_ok = agrees(s["pw"], s["ph"], s["extent"])
-        model_ok = (agrees(m["pw"], m["ph"], m["extent"]) and m["roundtrip"] is not None
-                    and ext_close(impl["roundtrip"]["extent"], m["roundtrip"]["extent"]) and m["data_extent"] == m["extent"])
+        model_ok = (agrees(m["pw"], m["ph"], m["extent"]) and "extent" in m["roundtrip"]
+                    and ext_close(impl["roundtrip"]["extent"], m["roundtrip"]["extent"]) and m["data_extent"] == m["extent"]
+                    and canon_eq(impl["array"], m["array"])
+                    and all(same_outcome(o[k], j[k]) for o, j in zip(impl["from_arrays"], m["from_arrays"]) for k in ("raster", "spot")))
         return impl, m, s, spec_ok, model_ok
 
     def eval_extent(self, case, ctx):
@@ -621,16 +713,19 @@ class C10(Prop):
         return layers
 
     def observe_srr(self, laser, cur, shapes, ctx, feats):
-        """extent / reconstructed pixel size of the SRR laser AS IT IS NOW against the shape of the array it reconstructs
-        now; `cur` = the abstract configuration it holds now -> (impl, model, spec, reconstruction raised)"""
+        """extent / reconstructed pixel size of the SRR laser AS IT IS NOW against the shape of the reconstruction;
+        `cur` = the INPUTS of the configuration it holds now (constructor arguments + "ops") -> (impl, model, spec, raised).
+        The demanded shape is Lean's `reconRows/reconCols` (C09's specification of the reconstruction) whenever the model's
+        validity check accepts the configuration; the shape pewlib reconstructs is an observation that must equal it too."""
         ext = [float(v) for v in laser.extent]
         px, py = float(laser.config.get_pixel_width()), float(laser.config.get_pixel_height())
-        mag = float_mag(cur)
-        if mag != float(cur["mag"]):
-            raise core.InternalError("generator: magnification is not the intended float integer")
-        rep = ctx.driver.call("c10.srr", cfg=srr_cfg_json(cur), mag=rat(mag), shapes=shapes, observed=[rat(v) for v in ext + [px, py]])
+        rep = ctx.driver.call("c10.srr", cfg=srr_cfg_json(cur), shapes=shapes, observed=[rat(v) for v in ext + [px, py]])
+        mj = rep["config"]
+        if not mj["integer_mag"] or mj["mag"] != cur["mag"]:
+            raise core.InternalError("generator: the model's float64 magnification is not the intended integer")
         feats |= {"srr", f"mag{cur['mag']}", f"layers{len(shapes)}", "warmup>0" if rep["warmup"] > 0 else "warmup=0",
-                  "non-square" if shapes[0][0] != shapes[1][0] else "square", "offset>0" if max(rep["offs"]) > 0 else "offset=0",
+                  "non-square" if shapes[0][0] != shapes[1][0] else "square",
+                  "offset>0" if (rep["offs"] and max(rep["offs"]) > 0) else "offset=0",
                   f"spp{'>1' if rep['spp'] > 1 else '=1'}"}
         try:
             recon = laser.get()
@@ -642,13 +737,29 @@ class C10(Prop):
         else:
             rx, ry = (unrat(v) for v in rep["observed_ratio"])
             impl = {"cols_from_extent": near_int(rx), "rows_from_extent": near_int(ry)}
-        spec = {"cols_from_extent": rshape[1], "rows_from_extent": rshape[0]}
-        if rep["spec_shape"] != rshape:
-            feats.add("reconstruction-shape-differs-from-C09-model")
-            model = spec  # nothing further to compare: C10 relates the extent to the array that was reconstructed
+        impl["reconstructed_shape"] = rshape
+        if rep["valid"] is True and rep["spec_shape"] is not None:
+            want = rep["spec_shape"]
+            feats.add("srr: shape demanded from the C09 specification")
+        else:  # a configuration the model's validity check rejects but pewlib reconstructs: only its own shape can be related
+            want = rshape
+            feats.add("srr: reconstructed although the model rejects the configuration")
+        spec = {"cols_from_extent": want[1], "rows_from_extent": want[0], "reconstructed_shape": want}
+        if rep["valid"] is not True:
+            # e.g. one sample short with one-line layers: NumPy broadcasts the short line, the model (no broadcasting) has no
+            # reconstruction; the property relates the extent to the array that WAS reconstructed, nothing else to compare
+            model = dict(spec)
+        elif rep["model_ratio"] is None or rep["model_shape"] is None:
+            model = {"cols_from_extent": None, "rows_from_extent": None, "reconstructed_shape": rep["model_shape"]}
         else:
             mr = [unrat(v) for v in rep["model_ratio"]]
-            model = {"cols_from_extent": near_int(mr[0]), "rows_from_extent": near_int(mr[1])}
+            model = {"cols_from_extent": near_int(mr[0]), "rows_from_extent": near_int(mr[1]), "reconstructed_shape": rep["model_shape"]}
+        # the extent and pixel size themselves, against the model (1e-12 relative)
+        model = dict(model)
+        impl["extent_px_agree_with_model"] = bool(ext_close(ext, rep["model_extent"]) and fclose(px, unrat(rep["model_px"]))
+                                                  and fclose(py, unrat(rep["model_py"]))) if rep["model_extent"] is not None else None
+        model["extent_px_agree_with_model"] = True if rep["model_extent"] is not None else None
+        spec["extent_px_agree_with_model"] = impl["extent_px_agree_with_model"]
         return impl, model, spec, False
 
     def eval_srr(self, case, ctx):
@@ -773,6 +884,7 @@ class C10(Prop):
 
         shapes = stack_shapes(case)
         cur = {k: case[k] for k in ("spotsize", "speed", "scantime", "warmup", "pairs", "mag")}
+        cur["ops"] = []  # what is DONE to the configuration object after its construction, for the driver's setters
         laser = SRRLaser(self.srr_layers(shapes), config=make_srr_cfg(cur))
         impl, model, spec = [], [], []
         feats = {"srr-history"}
@@ -785,24 +897,32 @@ class C10(Prop):
                 conf = laser.config
                 if "pairs" in ch:
                     conf.subpixel_offsets = [tuple(p) for p in ch["pairs"]]
+                    cur["ops"].append(cfg_op("offsets", pairs=ch["pairs"]))
                 if "warmup" in ch:
                     conf.warmup = ch["warmup"]
+                    cur["ops"].append(cfg_op("warmup", seconds=ch["warmup"]))
                 tag = "in-place edit of " + " and ".join(k for k in ("pairs", "warmup") if k in ch)
             elif ch["op"] == "equal":
                 w = len(ch["pairs"])
                 if ch["pairs"] != [[i, w] for i in range(w)]:
                     raise core.InternalError("equal offsets: pairs must be [[0, w], .., [w-1, w]]")
                 laser.config.set_equal_subpixel_offsets(w)
+                cur["ops"].append(cfg_op("equal", width=w))
                 tag = "in-place set_equal_subpixel_offsets"
             elif ch["op"] == "triple":
                 conf = laser.config
                 conf.spotsize, conf.speed, conf.scantime = ch["spotsize"], ch["speed"], ch["scantime"]
                 conf.warmup = ch["warmup"]
+                cur["ops"] += [cfg_op("params", spotsize=ch["spotsize"], speed=ch["speed"], scantime=ch["scantime"]),
+                               cfg_op("warmup", seconds=ch["warmup"])]
                 tag = "in-place edit of spot size, speed, scan time"
                 if ch["mag"] != cur["mag"]:
                     feats.add("srr-history: magnification changed")
             elif ch["op"] == "replace":
-                laser.config = make_srr_cfg({**cur, **{k: v for k, v in ch.items() if k != "op"}})
+                new = {**cur, **{k: v for k, v in ch.items() if k != "op"}}
+                laser.config = make_srr_cfg(new)
+                cur["ops"].append(cfg_op("new", spotsize=new["spotsize"], speed=new["speed"], scantime=new["scantime"],
+                                         warmup=new["warmup"], pairs=new["pairs"]))
                 tag = "config replaced"
             else:
                 raise core.InternalError(f"unknown change {ch}")
